@@ -1,4 +1,4 @@
-\* C09 thorough, hits and totals: 5 documents, every assignment to the leaves of 6 tree shapes (1..3 shards), 3 corpora, From,Size <= 3, search-after/before from every document
+\* C09 thorough, hits and totals: 5 documents, every assignment to the leaves of 6 tree shapes (1..3 shards), 3 corpora, From,Size <= 3, search-after/before (page 2) from every document
 SPECIFICATION Spec
 CONSTANTS
   NDocs = 5
@@ -7,7 +7,7 @@ CONSTANTS
   SortIds = {1, 2, 3, 4}
   MaxFrom = 3
   MaxSize = 3
-  CursorSizes = {1, 2}
+  CursorSizes = {2}
   WithFacets = FALSE
   Quirk = FALSE
 INVARIANTS TypeOK ChildRequestOK TotalIsSum PageEqSizePos PageEqSize0 ActionsMatchOperator
